@@ -229,6 +229,14 @@ def _bounded_grammar(tier, repo):
 REG.bounded_check("bounded#parse_tag_documented_grammar", P, _bounded_grammar,
                   note="layout invariance, denoted values, documented-invalid forms over all ASTs of the documented grammar up to the stated depth/width")
 
+def _bounded_tag_args(tier, repo):
+    from harness.bounded_tag_args import run
+    return run(repo, maxlen=4 if tier == "thorough" else 3)
+
+
+REG.bounded_check("bounded#receiver_gets_exactly_the_denoted_arguments", P, _bounded_tag_args,
+                  note="parse_tag, resolve_params and the hand-over to the receiver are not under contract as a whole: every argument list of <= 3 (thorough: 4) distinct atoms out of 19 (literals, variables, filter chains, list / dict literals with spreads, keywords incl. values spelled like a flag, special-character and aggregate keys, nested-template strings also spanning lines, top-level spreads with and without a filter chain) x 3 layouts is rendered through a real component tag and what get_context_data(*args, **kwargs) receives is compared with the denoted values; 7 documented-invalid top-level forms must raise TemplateSyntaxError")
+
 ASSUMES = ["A-PY", "A-INST", "A-DJ"]
 NOT_COVERED = [
     "parse_tag's own functional correctness is only bounded (see coverage.bounded)",
